@@ -9,15 +9,63 @@ CHECKS = {
  "C01": ("exploration", "reference-model monitor over a recorded call log (round trip through lexer and sequential iterator) + aliasing snapshots",
          "Held on N seeded (workload, configuration) executions of the real writer/readers; the evidence lists how many and of what shape. Exploration is the right level: the property quantifies over unbounded inputs x configurations and the code is single-threaded, so reach comes from input diversity.",
          "Call log recorded by the harness driver is ground truth; custom compression via lexer only; generator bounds in DESIGN.md section 3/C01.", "3/C01"),
+ "C02": ("exploration", "differential monitor: index-based reads, Info-driven random access and metadata callbacks against the sequential scan and the call log",
+         "Every index-based spelling of Messages() is compared with the scan of the same file over all 256 summary-flag combinations; fall-back-or-error clause applied outside the indexed precondition.",
+         "The sequential scan is judged by C01; time-order correctness by C03.", "3/C02"),
+ "C03": ("exploration", "order/exactly-once monitor over unique message ids; small-scope exhaustive enumeration (621435 files in the thorough tier) + random large files",
+         "Exhaustive over every file of <= 3 chunks x <= 3 messages x 4 timestamps (thorough), sampled in quick; random large files from two producers.",
+         "Chunk membership from the reference encoder/decoder; cross-chunk ties unconstrained as in the property.", "3/C03"),
+ "C04": ("exploration", "reference filter over the call log vs every window spelling x topic set x read mode",
+         "Each read is compared with {m | topic in T and start <= t < end} computed from the call log; time-ordered results also satisfy C03's predicates.",
+         "Deprecated int64 options not exercised with end=0 (documented as unset).", "3/C04"),
  "C05": ("exploration", "independent spec-derived decoder/validator watching the bytes delivered to the sink",
          "Every record of every produced file is re-derived by a decoder that shares no code with go/mcap; held on the files listed in the evidence.",
          "Reference decoder faithful to the spec (pinned by reproducing 416 conformance binaries bit-for-bit); zstd/lz4 codecs trusted.", "3/C05"),
  "C06": ("exploration", "independent CRC-32 recomputation over spec byte ranges of sink bytes",
          "All CRC fields of all produced files recomputed with hash/crc32; held on the files listed in the evidence.",
          "hash/crc32 and the reference decoder's record positions.", "3/C06"),
+ "C07": ("fault_enumeration", "exhaustive single-bit-flip enumeration of chunk payloads and attachment records + seeded overwrites, observed through the validating lexer",
+         "Every bit of every byte of every chunk payload / attachment record of the enumerated files is flipped; the oracle compares what is yielded before the first report with the original records.",
+         "Positions from the reference decoder; CRC-32 collisions would be reported (they are violations).", "3/C07"),
  "C08": ("exploration", "aggregate reference model over the call log vs Writer.Statistics, statistics record and Reader.Info",
          "Aggregates recomputed from the call log and compared with the three observation points on seeded and targeted stateful workloads.",
          "Call log is ground truth; chunk count and summary groups from the reference decoder.", "3/C08"),
+ "C09": ("fault_enumeration", "exhaustive truncation at every byte offset, prefix/completeness oracle over lexer and scan iterator",
+         "Every cut position of every enumerated file x 3 reader configurations.",
+         "Record boundaries from the reference decoder.", "3/C09"),
+ "C10": ("exploration", "isolated child process with address-space cap, CPU watchdog, per-call journal and allocation accounting over structured mutations and random bytes",
+         "Every public decode entry point on tens of thousands of hostile inputs per run; panics, process deaths, CPU overruns and single allocations >= 2^31 (or above configured limits) are violations.",
+         "Inputs <= 64 KiB; allocation attribution via runtime.MemProfile (rate 1) on inputs that allocate >= 2 GiB in one call.", "3/C10"),
+ "C11": ("exploration", "differential monitor over offset-free projections of all reader outputs: reference-encoded file vs the same content with unknown records and trailing bytes",
+         "Both files are verified spec-valid, then everything the Go readers report is projected to an offset-free form and compared.",
+         "Unknown records never placed between a chunk and its message indexes; padded conformance vectors via C17.", "3/C11"),
+ "C12": ("exploration", "reference-model monitor: one logical content, many reference-encoded layouts, all reader outputs compared with the content",
+         "Exhaustive over chunk partitions of a 6-message content, all 720 summary-group permutations, plus random layouts.",
+         "Every layout is verified spec-valid by the reference validator before use.", "3/C12"),
+ "C13": ("exploration", "hash comparison across map orders, processes (GOMAXPROCS 1/2/4/16) and concurrent goroutines under the Go race detector",
+         "SHA-256 of outputs compared across runs; -race binary with 16 goroutines of independent writers/readers, golden digests, race log scanned.",
+         "Race detector reports only races on interleavings that occurred.", "3/C13"),
+ "C14": ("fault_enumeration", "exhaustive enumeration of failing sink writes (4 failure modes per write index) and failing/short/long attachment sources",
+         "Every sink write of every enumerated (workload, configuration) is failed in four ways; the call that hit it must report an error and accepted bytes stay a prefix.",
+         "Sinks honour the io.Writer contract; write pattern deterministic (checked).", "3/C14"),
+ "C15": ("fault_enumeration", "exhaustive injection of a read error at every byte position (sticky and once), failing seeks, and five delivery schedules, over seven reader configurations",
+         "Every byte position of every enumerated file x 2 fault modes x 7 readers.",
+         "'Clean EOF' = errors.Is(err, io.EOF).", "3/C15"),
+ "C16": ("exploration", "differential monitor across implementations: Go writer -> Python readers and Python writer -> Go readers, compared with the call log",
+         "Files exchanged in both directions through /verif/py/interop.py running the repository's Python library.",
+         "Only uncompressed files (Python codecs absent); system python3.", "3/C16"),
+ "C17": ("exploration", "exhaustive replay of the finite conformance matrix through the two Go tools built from the working tree, inputs pinned by SHA-256",
+         "All 416 vectors: read tool on regenerated binaries (pinned to LFS SHA-256), write tool on all descriptions.",
+         "Git-LFS pointer SHA-256s identify the upstream binaries.", "3/C17"),
+ "C18": ("exploration", "reference-model monitor over generated ROS bags / sqlite databases; corrupt bags in an isolated child process",
+         "Conversions compared with the generating model through the reference MCAP decoder; corrupt inputs must return.",
+         "Fully indexed generated bags are read back by the independent go-rosbag reader; bz2 bags not generated.", "3/C18"),
+ "C19": ("exploration", "reference-model monitor over random type graphs; hostile definitions in an isolated child process (stack cap, CPU watchdog)",
+         "Parsed trees compared with the generating graph; hostile inputs (cycles, brackets, random bytes) must return.",
+         "Expected-tree semantics follow the parser's documented/tested behaviour for valid input.", "3/C19"),
+ "C20": ("exploration", "verif-tagged accessor sampled after every NextInto + live-heap/TotalAlloc accounting around streaming reads and writes",
+         "Slot counts against the measured overlap depth on every step; heap growth bounds on files several times larger than the bound; attachment streaming budgets.",
+         "Heap measurements taken while nothing else runs in the process; 24 MiB allowance for codec buffers.", "3/C20"),
 }
 
 NOT_YET = {}
@@ -44,10 +92,10 @@ def main():
         else:
             na.append({"property_id": pid, "reason": NOT_YET.get(pid, "check not built yet in this session (planned: runtime monitor per DESIGN.md section 3); not claimed until it exists")})
     hooks_commits = subprocess.run(['git','-C','/repo','log','--format=%H %s'],capture_output=True,text=True).stdout.splitlines()
-    hook_shas = [l.split()[0] for l in hooks_commits if ' verif-hook:' in l or l.split(' ',1)[1].startswith('verif hook')]
+    hook_shas = [l.split()[0] for l in hooks_commits if l.split(' ',1)[1].startswith('verif-hook:')]
     m = {
         "version": 1,
-        "setup_cmd": "cd /verif && export GOFLAGS=-mod=mod GOPROXY=off GOSUMDB=off GOTOOLCHAIN=local GOWORK=off && mkdir -p bin evidence replay && cd harness && go build -tags verif -o ../bin/verif ./cmd/verif",
+        "setup_cmd": "cd /verif && export GOFLAGS=-mod=mod GOPROXY=off GOSUMDB=off GOTOOLCHAIN=local GOWORK=off CGO_ENABLED=1 && mkdir -p bin evidence replay && cd harness && go build -tags verif -o ../bin/verif ./cmd/verif && go build -race -tags verif -o ../bin/verif-race ./cmd/verif",
         "hooks": {
             "guard": "verif",
             "enable": "go build -tags verif (the harness module replaces github.com/foxglove/mcap/go/{mcap,ros} by /repo/go/{mcap,ros})",
